@@ -474,6 +474,42 @@ def check_declared(rep: Report) -> None:
     rep.analysed["scales"] = [s.a.name for s in scales]
 
 
+def check_reduce_dimension(rep: Report, prog: Program) -> None:
+    """R05.8: _reduce_dimension returns (n, start.root(n), end.root(n)) - the exponent that hops are later
+    lifted by (R05.6) is the degree of the roots actually taken - or (1, start, end)."""
+    fi = prog.func("conversions._reduce_dimension")
+    ps = fi.params()
+    defs: Dict[str, List[ast.AST]] = {}
+    for n in ast.walk(fi.node):
+        if isinstance(n, ast.Assign) and len(n.targets) == 1 and isinstance(n.targets[0], ast.Name):
+            defs.setdefault(n.targets[0].id, []).append(n.value)
+    rets = [r for r in ast.walk(fi.node) if isinstance(r, ast.Return) and isinstance(r.value, ast.Tuple) and len(r.value.elts) == 3]
+    if not rets:
+        raise AnalysisError("conversions._reduce_dimension: no (exponent, start, end) return found")
+    for i, r in enumerate(rets):
+        e0, a, b = r.value.elts  # type: ignore[union-attr]
+        key = f"_reduce_dimension:return#{i + 1}"
+        if isinstance(e0, ast.Constant) and e0.value == 1:
+            okr = isinstance(a, ast.Name) and isinstance(b, ast.Name) and [a.id, b.id] == ps[:2] and a.id not in defs and b.id not in defs
+            rep.check("R05.8", key, okr, f"`{ast.unparse(r)}` returns exponent 1 with something other than the two units it was given", fi.where(r))
+            continue
+        degs = set()
+        okr = True
+        for side, src in ((a, ps[0]), (b, ps[1])):
+            vals = defs.get(side.id, []) if isinstance(side, ast.Name) else [side]
+            for v in vals:
+                if isinstance(v, ast.Call) and isinstance(v.func, ast.Attribute) and v.func.attr == "root" and len(v.args) == 1 \
+                        and ast.unparse(v.func.value) == src:
+                    degs.add(ast.unparse(v.args[0]))
+                else:
+                    okr = False
+            if not vals:
+                okr = False
+        rep.check("R05.8", key, okr and degs == {ast.unparse(e0)},
+                  f"`{ast.unparse(r)}` returns the exponent `{ast.unparse(e0)}` but the roots it returns were taken with {sorted(degs) or 'something else'}: "
+                  "every hop of the reduced path is lifted by the wrong power (1 acre^2 -> 3.6e18 ft^4)", fi.where(r))
+
+
 def check_in_unit(rep: Report, prog: Program, rid: str) -> None:
     """The public entry Quantity.in_unit is conversions.convert(self, unit) and nothing else: every other
     rule about conversion (affine map, prefix step last, offsets scaled) is proved about convert, so a
@@ -513,6 +549,7 @@ def run(rep: Report) -> None:
     rep.rule("R05.2", "convert applies an affine map whose coefficients do not depend on the magnitude: updates are "
              "magnitude*c / magnitude+c, no branch tests the magnitude, the plan depends on the units only", floor=4)
     rep.rule("R05.3", "every return of convert is Quantity(<magnitude>, <the requested unit, unmodified>)", floor=1)
+    rep.rule("R05.8", "_reduce_dimension returns the degree of the roots it actually took (or 1 with the units unchanged)", floor=2)
     rep.rule("R05.7", "Quantity.in_unit is conversions.convert(self, unit), unchanged, on every path", floor=1)
     rep.rule("R05.4", "path search: both tables read in one direction, recursion from the intermediate to end, hops ordered "
              "start -> end, direct hit and base case return single hops", floor=5)
@@ -523,6 +560,7 @@ def run(rep: Report) -> None:
     check_translate(rep, prog, resolver)
     check_convert(rep, prog)
     check_in_unit(rep, prog, "R05.7")
+    check_reduce_dimension(rep, prog)
     check_path_search(rep, prog)
     check_lifting(rep, prog)
     check_declared(rep)
